@@ -55,6 +55,35 @@ func ZZ_C08_DeepCopy() {
 	zz.Assert(c.Requires.Vars[0].Name == t.Requires.Vars[0].Name, "Requires")
 	zz.Assert(c.Location.Line == t.Location.Line && c.Location.Taskfile == t.Location.Taskfile, "Location")
 	zz.Assert(c.Deps[0] != t.Deps[0] && c.Cmds[0] != t.Cmds[0], "fresh-pointers")
+	zzCopyIndependence()
+	zz.Reach("end")
+}
+
+// zzCopyIndependence: the copy keeps the variable maps' contents (sharing of
+// structure is asserted only through its observable consequence, see
+// ZZ_C08_IncludedTwice).
+func zzCopyIndependence() {
+	v := zz.Str("ind.value", 2, "ab")
+	mk := func() *Vars {
+		vs := NewVars()
+		vs.Set("K", Var{Value: v})
+		return vs
+	}
+	t := &Task{Task: "t", Vars: mk(), Env: mk(), IncludeVars: mk(), IncludedTaskfileVars: mk(),
+		Aliases: []string{"al"}, Dotenv: []string{"de"}, Set: []string{"s"}, Shopt: []string{"so"}, Status: []string{"st"},
+		Sources: []*Glob{{Glob: "g"}}, Generates: []*Glob{{Glob: "o"}}, Preconditions: []*Precondition{{Sh: "p"}},
+		Platforms: []*Platform{{OS: "os"}}, Requires: &Requires{Vars: []*VarsWithValidation{{Name: "r"}}}, Location: &Location{Taskfile: "f"},
+		Cmds: []*Cmd{{Task: "x", Vars: mk()}}, Deps: []*Dep{{Task: "d", Vars: mk()}}}
+	c := t.DeepCopy()
+	same := func(a, b *Vars) bool {
+		x, ok := a.Get("K")
+		y, ok2 := b.Get("K")
+		xs, _ := x.Value.(string)
+		ys, _ := y.Value.(string)
+		return ok && ok2 && xs == ys && xs == v
+	}
+	zz.Assert(same(c.Vars, t.Vars) && same(c.Env, t.Env) && same(c.IncludeVars, t.IncludeVars) && same(c.IncludedTaskfileVars, t.IncludedTaskfileVars), "copy-keeps-variable-maps")
+	zz.Assert(same(c.Cmds[0].Vars, t.Cmds[0].Vars) && same(c.Deps[0].Vars, t.Deps[0].Vars), "copy-keeps-call-variables")
 }
 
 func ZZ_C08_Merge() {
@@ -122,3 +151,60 @@ func ZZ_C08_Merge() {
 	zz.Assert(t.Deps[0].Task == origDep, "definition-unchanged")
 }
 
+
+
+// ZZ_C08_IncludedTwice: a Taskfile (which itself includes a leaf file) included
+// twice under two namespaces with different vars yields two independent sets of
+// tasks: each sees its own include vars, its deps/calls/aliases carry its own
+// namespace, and the definitions are unchanged.
+func ZZ_C08_IncludedTwice() {
+	one, two := zz.Str("who1", 2, "ab"), zz.Str("who2", 2, "ab")
+	leafVar := zz.Str("leafvar", 2, "ab")
+	mkLeaf := func() *Tasks {
+		return NewTasks(&TaskElement{Key: "show", Value: &Task{Task: "show", Aliases: []string{"s"},
+			Deps: []*Dep{{Task: "dep"}}, Cmds: []*Cmd{{Task: "other"}, {Task: ":roottask"}}, Location: &Location{Taskfile: "leaf"}}})
+	}
+	leaf := mkLeaf()
+	mid := NewTasks(&TaskElement{Key: "show", Value: &Task{Task: "show", Deps: []*Dep{{Task: "leaf:show"}}, Location: &Location{Taskfile: "mid"}}})
+	leafInc := &Include{Namespace: "leaf", AdvancedImport: zz.Bool("leaf_include_is_mapping_form"), Vars: NewVars()}
+	leafInc.Vars.Set("L", Var{Value: leafVar})
+	zz.Assert(mid.Merge(leaf, leafInc, NewVars()) == nil, "merge-must-not-fail")
+	root := NewTasks()
+	inc1 := &Include{Namespace: "m1", AdvancedImport: true, Vars: NewVars()}
+	inc1.Vars.Set("WHO", Var{Value: one})
+	inc2 := &Include{Namespace: "m2", AdvancedImport: true, Vars: NewVars()}
+	inc2.Vars.Set("WHO", Var{Value: two})
+	zz.Assert(root.Merge(mid, inc1, NewVars()) == nil, "merge-must-not-fail")
+	zz.Assert(root.Merge(mid, inc2, NewVars()) == nil, "merge-must-not-fail")
+	who := func(key string) (string, bool) {
+		t, ok := root.Get(key)
+		if !ok || t.IncludeVars == nil {
+			return "", false
+		}
+		v, ok := t.IncludeVars.Get("WHO")
+		s, _ := v.Value.(string)
+		return s, ok
+	}
+	for _, c := range []struct{ key, want, ns string }{{"m1:show", one, "m1"}, {"m2:show", two, "m2"}, {"m1:leaf:show", one, "m1"}, {"m2:leaf:show", two, "m2"}} {
+		got, ok := who(c.key)
+		zz.Assert(ok && got == c.want, "included-twice/each-copy-sees-its-own-include-vars/"+c.key)
+		t, present := root.Get(c.key)
+		zz.Assert(present, "included-twice/callable/"+c.key)
+		if present && c.key == c.ns+":leaf:show" {
+			zz.Assert(t.Deps[0].Task == c.ns+":leaf:dep" && t.Cmds[0].Task == c.ns+":leaf:other", "included-twice/references-carry-own-namespace")
+			zz.Assert(t.Cmds[1].Task == "roottask", "included-twice/root-references-unprefixed")
+			zz.Assert(len(t.Aliases) >= 1 && t.Aliases[0] == c.ns+":leaf:s", "included-twice/aliases-carry-own-namespace")
+			if leafInc.AdvancedImport {
+				l, ok := t.IncludeVars.Get("L")
+				ls, _ := l.Value.(string)
+				zz.Assert(ok && ls == leafVar, "included-twice/inner-include-vars-kept")
+			}
+		}
+	}
+	def, _ := leaf.Get("show")
+	zz.Assert(def.Task == "show" && def.Deps[0].Task == "dep" && def.Cmds[0].Task == "other" && def.Aliases[0] == "s" && def.IncludeVars == nil, "included-twice/definitions-unchanged")
+	if zz.Twin() {
+		zz.Assert(false, "twin")
+	}
+	zz.Reach("end")
+}
